@@ -145,7 +145,8 @@ func rtreeValueUp(d float64) float32 {
 }
 
 func rtreeItem(item *object.Object) (min, max [2]float32, data *object.Object) {
-	min, max = rtreeRect(item.Rect())
+	// searchRect widens the rectangle of circle objects to their true disc
+	min, max = rtreeRect(searchRect(item.Geo()))
 	return min, max, item
 }
 
